@@ -658,7 +658,7 @@ def run(chk):
                        "non-trivial = distinct (input, options, edit script) whose repair completed")
     # ---- inputs
     inputs = []
-    for name, data, doc in filecheck.gen_docs(rng, 5 if quick else 30) + special_docs(rng):
+    for name, data, doc in filecheck.gen_docs(rng, 8 if quick else 30) + special_docs(rng):
         p = os.path.join(wd, name + ".pdf")
         open(p, "wb").write(data)
         inputs.append((name, p, "generated"))
@@ -668,7 +668,7 @@ def run(chk):
             open(p, "wb").write(data)
             inputs.append(("big" + name, p, "generated"))
     cf = [f for f in filecheck.corpus_files() if os.path.getsize(f) <= (30000 if quick else 60000)]
-    for f in rng.sample(cf, 14 if quick else min(len(cf), 100)):
+    for f in rng.sample(cf, 24 if quick else min(len(cf), 100)):
         inputs.append((os.path.basename(f), f, "corpus"))
     fnd = []
     for name, data in finding_docs():
@@ -763,7 +763,7 @@ def run(chk):
     chk.cov["parts"]["unedited-qdf"]["with_xref_stream"] = sum(1 for _, _, _, sd in base if sd.xref_stream)
 
     # ---- layout-preserving edit scripts
-    per_file = 3 if quick else 5
+    per_file = 4 if quick else 5
     ecases = []
     rejected = 0
     for (i, out, lines, sd) in base:
@@ -860,6 +860,29 @@ def run(chk):
                         "file_b64": base64.b64encode(open(bp, "rb").read()).decode() if os.path.getsize(bp) < 60000 else None, "implementation": ist, "model": mst})
     chk.count("layout-breaking", len(bcases), nontriv, samples=[{"edit": c[2]} for c in bcases[:3]])
     chk.cov["parts"]["layout-breaking"]["outcomes"] = outcomes
+
+    # ---- QDF-form files of the repository's test suite (many hand-edited): model = binary
+    rq = []
+    for f in sorted(os.listdir(filecheck.CORPUS_DIR)):
+        fp = os.path.join(filecheck.CORPUS_DIR, f)
+        try:
+            if os.path.isfile(fp) and os.path.getsize(fp) <= (40000 if quick else MAXSIZE):
+                with open(fp, "rb") as fh:
+                    head = fh.read(300).split(b"\n")
+                if len(head) > 2 and head[2] == b"%QDF-1.0":
+                    rq.append(fp)
+        except OSError:
+            pass
+    if quick:
+        rq = rng.sample(rq, min(len(rq), 40)) + [os.path.join(filecheck.CORPUS_DIR, f) for f in ("fix1.qdf", "fix2.qdf")]
+    rb = run_both(runner, rq, wd, "q")
+    outcomes = {}
+    for fp, (ist, ipath, mst, mpath) in zip(rq, rb):
+        outcomes[" ".join(ist.split()[:2])] = outcomes.get(" ".join(ist.split()[:2]), 0) + 1
+        if ist != mst or not same_file(ipath, mpath):
+            tie.append({"stage": "repository QDF file", "file": fp, "implementation": ist, "model": mst})
+    chk.count("repository-qdf-files", len(rq), [("rq", os.path.basename(f)) for f in rq], samples=[{"file": os.path.basename(f)} for f in rq[:2]])
+    chk.cov["parts"]["repository-qdf-files"]["outcomes"] = outcomes
 
     # ---- the witnesses of the *_refuted / example theorems are what the qpdf under test writes
     wv = open(os.path.join(common.COQ, "File", "C17Witness.v")).read()
